@@ -289,7 +289,23 @@ func c15Accept(quick bool) *Scenario {
 							r.Fail("C15.R1", "func(ctx) "+rs.Name, "documented signature rejected: "+err.Error(), "")
 						} else {
 							for _, ps := range []string{"", "[]", "{}", "[1]", `{"a":1}`, "5"} {
-								h := fi.Wrap()
+								// the options are about decoding an argument; set on a function without one they change nothing
+								opt := ""
+								var h jrpc2.Handler
+								if pw := guarded(func() {
+									switch len(ps) % 3 {
+									case 1:
+										opt = " after SetStrict(true)"
+										fi.SetStrict(true)
+									case 2:
+										opt = " after SetStrict(true).AllowArray(false)"
+										fi.SetStrict(true).AllowArray(false)
+									}
+									h = fi.Wrap()
+								}); pw != "" {
+									r.Fail("C15.R6", "func(ctx) "+rs.Name+opt, "Wrap panicked: "+pw, "")
+									continue
+								}
 								rec.calls = 0
 								var res any
 								var herr error
@@ -313,7 +329,12 @@ func c15Accept(quick bool) *Scenario {
 								rec.calls = 0
 								var res any
 								var herr error
-								p := guarded(func() { res, herr = fi.Wrap()(context.Background(), req) })
+								p := guarded(func() {
+									if len(ps) == 3 {
+										fi.SetStrict(true).AllowArray(false)
+									}
+									res, herr = fi.Wrap()(context.Background(), req)
+								})
 								r.Calls(1)
 								r.Case("reqarg/"+rs.Name, true)
 								c15JudgeCall(r, "func(ctx,*Request) "+rs.Name+" params "+ps, p, rec, true, res, herr, rs, fail, reflect.Value{}, false)
